@@ -103,7 +103,13 @@ JoinMenu == <<
   Join(Id("leftouter"), Tab("B", <<>>), <<ck, Bin("NE", Bin("Eq", Qual("$right", "k"), Qual("$right", "b")), Col("true"))>>),
   Join(None, Tab("B", <<Summarize(<<>>, <<ECol(None, ck)>>, FALSE)>>), <<ck>>),
   \* a default-kind join nested in the right-hand pipeline after a filter (its own left side must be de-duplicated)
-  Join(Id("inner"), Tab("B", <<Where(Bin("GT", Col("b"), Num("3"))), Join(None, Tab("C", <<>>), <<ck>>)>>), <<ck>>)
+  Join(Id("inner"), Tab("B", <<Where(Bin("GT", Col("b"), Num("3"))), Join(None, Tab("C", <<>>), <<ck>>)>>), <<ck>>),
+  \* every other operator kind as the last one of the right-hand pipeline
+  Join(None, Tab("B", <<As("R")>>), <<ck>>),
+  Join(Id("leftouter"), Tab("B", <<Where(Bin("GT", Col("b"), Num("3"))), As("R")>>), <<ck>>),
+  Join(Id("inner"), Tab("B", <<Extend(<<ECol(Id("z"), Bin("Plus", Col("b"), Num("1")))>>)>>), <<ck>>),
+  Join(Id("inner"), Tab("B", <<Top(Num("1"), TermD(Col("b")))>>), <<ck>>),
+  Join(None, Tab("B", <<Sort(<<TermD(Col("b"))>>)>>), <<ck>>)
 >>
 SecondJoins == {14, 15, 16}
 \* what may precede / follow a join
